@@ -66,7 +66,27 @@ func (w *World) linearize(pre, final *Snapshot, cmds []ConcCmd) []string {
 	bestN := 1 << 30
 	var perm func(prefix []int, rest []int) bool
 	tryOrder := func(order []int) bool {
-		d := w.replayOrder(pre, final, cmds, order)
+		d, states := w.replayOrder(pre, final, cmds, order)
+		if len(d) == 0 {
+			// a failed command must be justifiable somewhere along this order: lock busy,
+			// or the rules do not demand acceptance in at least one state the store passed
+			// through (one-sided: its real-time window is not used to narrow the states)
+			for i, c := range cmds {
+				if c.ok() || c.Hung || c.lockBusy() || c.Op.Kind == "claim" {
+					continue
+				}
+				justified := false
+				for _, st := range states {
+					if w.Predict(st, c.Op).Decision != MustAccept {
+						justified = true
+						break
+					}
+				}
+				if !justified {
+					d = append(d, fmt.Sprintf("#%d `%s` failed (%s) although the rules accept it in every state along this order", i, strings.Join(c.cmd.Args, " "), clip(c.Err, 160)))
+				}
+			}
+		}
 		if len(d) == 0 {
 			return true
 		}
@@ -103,25 +123,16 @@ func (w *World) linearize(pre, final *Snapshot, cmds []ConcCmd) []string {
 		return false
 	}
 	if perm(nil, live) {
-		// a failed command must be justifiable: lock busy, or the rules do not demand
-		// acceptance in both the initial and the final state (cheap, one-sided check)
-		for i, c := range cmds {
-			if c.ok() || c.lockBusy() {
-				continue
-			}
-			if w.Predict(pre, c.Op).Decision == MustAccept && w.Predict(final, c.Op).Decision == MustAccept && c.Op.Kind != "claim" {
-				return []string{fmt.Sprintf("#%d `%s` failed (%s) although the rules accept it before and after the concurrent phase", i, strings.Join(c.cmd.Args, " "), clip(c.Err, 160))}
-			}
-		}
 		return nil
 	}
 	return best
 }
 
 // replayOrder runs the model over the commands in the given order.
-func (w *World) replayOrder(pre, final *Snapshot, cmds []ConcCmd, order []int) []string {
+func (w *World) replayOrder(pre, final *Snapshot, cmds []ConcCmd, order []int) ([]string, []*Snapshot) {
 	var out []string
 	cur := pre.Clone()
+	states := []*Snapshot{cur}
 	touched := map[string]bool{}
 	scratch := &World{Root: w.Root, Origin: w.Origin, ByOrig: w.ByOrig, Pruned: map[string]bool{}, Seen: map[string]bool{}}
 	for id := range w.Pruned {
@@ -135,7 +146,7 @@ func (w *World) replayOrder(pre, final *Snapshot, cmds []ConcCmd, order []int) [
 		pred := scratch.Predict(cur, c.Op)
 		if pred.Decision == MustReject {
 			out = append(out, fmt.Sprintf("#%d `%s` succeeded, but at this position the rules reject it (%s)", i, strings.Join(c.cmd.Args, " "), pred.Rejects[0].Why))
-			return out
+			return out, states
 		}
 		exp, t, viol := scratch.applyEffect(cur, final, c.Op, c.reply)
 		for _, v := range viol {
@@ -146,7 +157,7 @@ func (w *World) replayOrder(pre, final *Snapshot, cmds []ConcCmd, order []int) [
 		}
 		if exp == nil {
 			out = append(out, fmt.Sprintf("#%d: no expected state", i))
-			return out
+			return out, states
 		}
 		for id := range t {
 			touched[id] = true
@@ -162,6 +173,7 @@ func (w *World) replayOrder(pre, final *Snapshot, cmds []ConcCmd, order []int) [
 			}
 		}
 		cur = exp
+		states = append(states, cur)
 	}
 	// final state
 	for _, id := range keysOfItems(cur, final) {
@@ -193,7 +205,7 @@ func (w *World) replayOrder(pre, final *Snapshot, cmds []ConcCmd, order []int) [
 			}
 		}
 	}
-	return out
+	return out, states
 }
 
 // ---- controlled schedules ----
